@@ -42,7 +42,7 @@ fn literal_leaves() -> Vec<(String, RE)> {
     }
     for (l, t) in [
         ("empty", ""), ("quotes", "\"\""), ("ends-with-quote", "say \"hi\""), ("starts-with-quote", "\"hi\" said"), ("ends-with-backslash-quote", "a\\\""), ("only-quote", "\""), ("backslashes", "\\\\"), ("quote-backslash", "\\\""), ("backslash-n", "\\n"), ("newline-tab-cr", "\n\t\r"), ("slashes", "// not a comment"),
-        ("non-bmp", "😀\u{10FFFF}"), ("long-mixed", "The \"quick\" brown \\fox\\ jumps\nover\tthe lazy dog — ünïcödé 日本語 😀 // not a comment \\u{41} \\n \"\" end"), ("bom", "\u{feff}"), ("line-sep", "\u{2028}\u{2029}\u{85}"), ("escape-lookalike", "\\u{41}"), ("trailing-backslash", "abc\\"), ("spaces", "  a  "),
+        ("non-bmp", "😀\u{10FFFF}"), ("non-ascii-before-quote", "é\"x"), ("non-ascii-before-backslash", "日本\\語"), ("euro-quote", "€5 for a \"large\" café crème"), ("comma-space", "Smith, John"), ("long-mixed", "The \"quick\" brown \\fox\\ jumps\nover\tthe lazy dog — ünïcödé 日本語 😀 // not a comment \\u{41} \\n \"\" end"), ("bom", "\u{feff}"), ("line-sep", "\u{2028}\u{2029}\u{85}"), ("escape-lookalike", "\\u{41}"), ("trailing-backslash", "abc\\"), ("spaces", "  a  "),
     ] {
         s(l, t.to_string());
     }
@@ -146,6 +146,12 @@ fn structural_cases(tier: Tier) -> Vec<Case> {
     {
         let items: Vec<RE> = (0..12).map(|i| if i % 2 == 0 { RE::reff(&format!("x{i}")) } else { RE::Val(RV::Int(i - 6)) }).collect();
         add("list-12".into(), RE::List(items.clone()));
+        // long renderings (beyond any plausible line width) containing strings with separators inside
+        let names: Vec<RE> = ["Smith, John", "Doe, Jane; Roe, Richard", "a, b, c, d", "x: y, z: w", "[1, 2]", "{k: v, l: w}", "tab,\ttab", "end,"].iter().map(|s| RE::Val(RV::str(s))).collect();
+        add("long-list-of-strings".into(), RE::List(names.iter().cloned().cycle().take(24).collect()));
+        add("long-map-of-strings".into(), RE::Map(names.iter().cloned().cycle().take(24).enumerate().map(|(i, e)| (format!("key_{i}"), e)).collect()));
+        add("long-nested".into(), RE::List(vec![RE::List(names.clone()), RE::Map(names.iter().cloned().enumerate().map(|(i, e)| (format!("k{i}"), RE::List(vec![e, RE::reff("x")]))).collect())]));
+        add("long-call-args".into(), RE::call("f", RE::List(names.iter().cloned().cycle().take(40).collect())));
         add("map-12".into(), RE::Map(items.iter().cloned().enumerate().map(|(i, e)| (format!("k{i}"), e)).collect()));
         for k in &ks {
             let mut t = RE::reff("x");
